@@ -250,6 +250,10 @@ class Pairing:
             for x in ast.walk(a.value):
                 if isinstance(x, ast.Name) and x.id in self.src and x.id not in self.obj:
                     parts |= self.src[x.id]
+                elif isinstance(x, (ast.IfExp, ast.Subscript)):
+                    r = _dict_read(x)
+                    if r and r[1] in ("G", "H"):
+                        parts.add(r)
             if parts and all(k in ("G", "H") for d, k in parts):
                 self.cvparts.setdefault(nm, set()).update(parts)
         self.pairs = set()
